@@ -49,7 +49,15 @@ class VDT(dt.datetime):
         return cls(n.year, n.month, n.day, n.hour, n.minute, n.second, n.microsecond)
 
 
-S3C.datetime = VDT
+    @classmethod
+    def now(cls, tz=None):
+        n = cls.utcnow()
+        return n if tz is None else n.replace(tzinfo=dt.timezone.utc).astimezone(tz)
+
+
+W.install_clock(S3C, VDT)
+if not any(v is VDT for v in vars(S3C).values()) and not hasattr(S3C, 'datetime'):
+    S3C.datetime = VDT
 
 
 def make_client(kind, scheme, host, creds):
